@@ -1,6 +1,7 @@
 // C13 (state lists): drives the real MgrNodeList / MgrNode / GenericNode with the line protocol of lean/Drivers/C13l.lean.
 //   reset          new lists A (address 0) and B (address 1), NN fresh nodes (addresses 2..NN+1)
 //   a <0|1> <n>    MgrNodeList::Append( node n ) on list A|B   (moves the node if it is in a list)
+//   c <0|1>        GenNodeList::ClearEntries() on list A|B
 //   r <n>          MgrNode::Remove()                           (GenericNode::Remove, null-guarded)
 // after every op: forward and backward traversal of both lists and the nodes whose pointers are both null.
 #include <cstdio>
@@ -77,6 +78,10 @@ int main() {
             in >> a >> b;
             if( a < 0 || a > 1 || b < 2 || b >= NN + 2 ) { std::cout << "bad-op\n"; continue; }
             L[a]->Append( nodes[b - 2] );
+        } else if( op == "c" ) {
+            in >> a;
+            if( a < 0 || a > 1 ) { std::cout << "bad-op\n"; continue; }
+            L[a]->ClearEntries();
         } else if( op == "r" ) {
             in >> b;
             if( b < 2 || b >= NN + 2 ) { std::cout << "bad-op\n"; continue; }
